@@ -1,28 +1,16 @@
 """C08 Message stream is a faithful, ordered image of task lifecycles."""
 from mirsym.harness import Check
-from . import scen
 from .C01 import ASSUME
+from .plan import scripted_jobs
 
 QUICK = ['seq2', 'two_if', 'catch_act', 'msg_set', 'step_if', 'par_block']
 
 
 def main(tier, seed):
     c = Check("C08", tier, seed)
-    jobs = []
-    names = QUICK if tier == "quick" else list(scen.catalogue().keys())
-    k = 2 if tier == "quick" else 3
-    parts = 4 if tier == "quick" else 16
-    for n in names:
-        for i in range(parts):
-            jobs.append(("props.flow", "run_scenario", (n, dict(policy="fifo", k=k, oracles=("c08",), targets="acts", skip_running_acts=True, part=(i, parts),
-                                                                 max_paths=600 if tier == "quick" else 20000, seed=seed), "C08")))
-        jobs.append(("props.flow", "run_scenario", (n, dict(policy="lifo", k=1, oracles=("c08",), targets="all", skip_running_acts=True, max_paths=400, seed=seed), "C08")))
-    # longer histories over a small vocabulary: complete / back / cancel / error on a two-step flow (back followed by cancel of the old instance etc.)
-    for i in range(4):
-        jobs.append(("props.flow", "run_scenario", ("two_steps", dict(policy="fifo", k=3 if tier == "quick" else 4, kinds=["Next", "Back", "Cancel", "Error"], oracles=("c08",), targets="acts",
-                                                                     skip_running_acts=True, part=(i, 4), max_paths=1500 if tier == "quick" else 20000, seed=seed), "C08")))
+    jobs, bounds = scripted_jobs("C08", "c08", QUICK, tier, seed, extra=dict(skip_running_acts=True))
     c.run_jobs(jobs)
     return c.finish(
         rule="one path = scenario x valuation class of the symbolic inputs x (target task, symbolic action kind) per script step x schedule",
         assumptions=ASSUME + ["'reported terminal' = a task event was emitted for the task while in a terminal state"],
-        bounds=dict(scenarios=names, script_len=k, action_kinds=10, targets="every act task (fifo runs, k steps) / every task (lifo runs, 1 step)"))
+        bounds=bounds)
